@@ -25,15 +25,15 @@ import (
 const okSpec = "openapi: 3.0.3\ninfo: {title: t, version: \"1\"}\npaths:\n  /a:\n    get:\n      responses: {\"200\": {description: ok}}\n"
 
 var fixtures = map[string]string{
-	"ok.yml":           okSpec,
-	"bad_yaml.yml":     "openapi: [\n",
-	"bad_json.json":    `{"openapi": "3.0.3", `,
-	"invalid_spec.yml": "openapi: 3.0.3\ninfo: {title: t, version: \"1\"}\npaths:\n  a:\n    get:\n      responses: {\"200\": {description: ok}}\n",
-	"dup_op.yml":       "openapi: 3.0.3\ninfo: {title: t, version: \"1\"}\npaths:\n  /a:\n    get:\n      operationId: x\n      responses: {\"200\": {description: ok}}\n  /b:\n    get:\n      operationId: x\n      responses: {\"200\": {description: ok}}\n",
-	"notimpl.yml":      "openapi: 3.0.3\ninfo: {title: t, version: \"1\"}\npaths:\n  /a:\n    get:\n      parameters: [{name: q, in: query, style: spaceDelimited, schema: {type: array, items: {type: string}}}]\n      responses: {\"200\": {description: ok}}\n",
-	"ir_err.yml":       "openapi: 3.0.3\ninfo: {title: t, version: \"1\"}\npaths:\n  /a:\n    get:\n      parameters: [{name: q, in: query, schema: {type: integer, default: \"x\"}}]\n      responses: {\"200\": {description: ok}}\n",
-	"route_conflict.yml": "openapi: 3.0.3\ninfo: {title: t, version: \"1\"}\npaths:\n  /a/{x}{y}:\n    get:\n      parameters: [{name: x, in: path, required: true, schema: {type: string}},{name: y, in: path, required: true, schema: {type: string}}]\n      responses: {\"200\": {description: ok}}\n",
-	"dangling_ref.yml": "openapi: 3.0.3\ninfo: {title: t, version: \"1\"}\npaths:\n  /a:\n    get:\n      responses: {\"200\": {$ref: '#/components/responses/Nope'}}\n",
+	"ok.yml":                  okSpec,
+	"bad_yaml.yml":            "openapi: [\n",
+	"bad_json.json":           `{"openapi": "3.0.3", `,
+	"invalid_spec.yml":        "openapi: 3.0.3\ninfo: {title: t, version: \"1\"}\npaths:\n  a:\n    get:\n      responses: {\"200\": {description: ok}}\n",
+	"dup_op.yml":              "openapi: 3.0.3\ninfo: {title: t, version: \"1\"}\npaths:\n  /a:\n    get:\n      operationId: x\n      responses: {\"200\": {description: ok}}\n  /b:\n    get:\n      operationId: x\n      responses: {\"200\": {description: ok}}\n",
+	"notimpl.yml":             "openapi: 3.0.3\ninfo: {title: t, version: \"1\"}\npaths:\n  /a:\n    get:\n      parameters: [{name: q, in: query, style: spaceDelimited, schema: {type: array, items: {type: string}}}]\n      responses: {\"200\": {description: ok}}\n",
+	"ir_err.yml":              "openapi: 3.0.3\ninfo: {title: t, version: \"1\"}\npaths:\n  /a:\n    get:\n      parameters: [{name: q, in: query, schema: {type: integer, default: \"x\"}}]\n      responses: {\"200\": {description: ok}}\n",
+	"route_conflict.yml":      "openapi: 3.0.3\ninfo: {title: t, version: \"1\"}\npaths:\n  /a/{x}{y}:\n    get:\n      parameters: [{name: x, in: path, required: true, schema: {type: string}},{name: y, in: path, required: true, schema: {type: string}}]\n      responses: {\"200\": {description: ok}}\n",
+	"dangling_ref.yml":        "openapi: 3.0.3\ninfo: {title: t, version: \"1\"}\npaths:\n  /a:\n    get:\n      responses: {\"200\": {$ref: '#/components/responses/Nope'}}\n",
 	"cfg_bad_yaml.yml":        "generator: [\n",
 	"cfg_unknown_field.yml":   "nope: 1\n",
 	"cfg_unknown_feature.yml": "generator:\n  features:\n    enable: [\"nope\"]\n",
